@@ -330,8 +330,12 @@ async fn main() {
         ("directed:one_entry_per_key", vec![Step { date: d, evs: base1.clone() }, Step { date: d + 3000, evs: vec![Ev::User(10, 3, true), Ev::UAdmin(10, 4, true)] }, Step { date: d + 6000, evs: vec![Ev::Group(11), Ev::Right(11, 2, true, true), Ev::User(11, 2, true)] }]),
     ];
     for (name, steps) in directed {
-        let p = run_history(&mut ctx, &mut a, &mut b, &mut f, name, steps, dp.clone()).await;
-        pend.push(p);
+        // the import order of same-date rows follows their random uids: repeat the tie scenario so that both orders show up
+        let reps = if name == "directed:same_date_tie" { 4 } else { 1 };
+        for _ in 0..reps {
+            let p = run_history(&mut ctx, &mut a, &mut b, &mut f, name, steps.clone(), dp.clone()).await;
+            pend.push(p);
+        }
     }
     let n = scale(110, 1500);
     for i in 0..n {
